@@ -99,6 +99,8 @@ pub struct Verdict {
     pub stats: BTreeMap<String, u64>,
     /// reference steps simulated (for "simulated time")
     pub ref_steps: u64,
+    /// digest of process-independent artefacts (C13), compared across processes by the parent
+    pub artefact: Option<String>,
 }
 
 impl Verdict {
